@@ -4,6 +4,8 @@ Families : 24 program families parameterised by N (consecutive statements at mod
            loop level and after an early exit, elif chains, chained binary/boolean/comparison
            operators, call/attribute/subscript chains, nested if/for/while/def/class blocks, nested
            brackets and lambdas, long tuple targets, long augmented right-hand sides, many defs ...).
+           Families bounded by CPython's own nesting limits also get the sizes just below the limit
+           (50, 90, 98 indentation levels; 15, 19, 20 nested loops).
 Bound    : N on the geometric grid {10, 30, 100, 300, 1000} (quick) + {3000, 10000} (thorough), cut
            per family at the first N CPython itself refuses for the SOURCE; x 8 option combinations;
            every (family, N) runs in its own fresh subprocess with the default recursion limit (a
@@ -36,6 +38,16 @@ def nested(header, n, innermost):
     return "\n".join(lines)
 
 
+def _elif_mixed(n):
+    """an if/elif chain whose tests alternate between a plain comparison and a chained comparison"""
+    out = ["x = %d" % (n - 1), "if x < 0:", "    r = -2"]
+    for i in range(n):
+        out.append("elif x == %d:" % i if i % 2 else "elif %d <= x < %d + 1:" % (i, i))
+        out.append("    r = %d" % i)
+    out += ["else:", "    r = -1", "print(r)"]
+    return "\n".join(out) + "\n"
+
+
 FAMILIES = {
     "seq-module": lambda n: "x = 0\n" + "x = x + 1\n" * n + "print(x)\n",
     "seq-func": lambda n: "def f(x):\n" + "    x = x + 1\n" * n + "    return x\nprint(f(0))\n",
@@ -46,6 +58,11 @@ FAMILIES = {
     "seq-calls": lambda n: "r = []\n" + "r.append(1)\n" * n + "print(len(r))\n",
     "many-defs": lambda n: "".join("def f%d(a):\n    return a + %d\n" % (i, i) for i in range(n)) + "print(f0(1), f%d(1))\n" % (n - 1),
     "many-classes": lambda n: "".join("class C%d:\n    v = %d\n" % (i, i) for i in range(n)) + "print(C0.v, C%d.v)\n" % (n - 1),
+    "guard-clauses-return": lambda n: "def f(x):\n" + "".join("    if x == %d:\n        return %d\n" % (i, i) for i in range(n)) + "    return -1\nprint(f(0), f(%d), f(-5))\n" % (n - 1),
+    "guard-clauses-continue": lambda n: "r = 0\nfor x in range(3):\n" + "".join("    if x == %d:\n        continue\n" % (i + 1) for i in range(n)) + "    r += 1\nprint(r)\n",
+    "guard-clauses-break": lambda n: "r = 0\nwhile r < 5:\n    r += 1\n" + "".join("    if r == %d:\n        break\n" % (i + 3) for i in range(n)) + "print(r)\n",
+    "elif-chain-mixed": lambda n: _elif_mixed(n),
+    "if-else-nested-in-else": lambda n: "x = %d\n" % (n - 1) + "".join("    " * i + "if x == %d:\n" % i + "    " * (i + 1) + "r = %d\n" % i + "    " * i + "else:\n" for i in range(n)) + "    " * n + "r = -1\nprint(r)\n",
     "elif-chain": lambda n: "x = %d\nif x == 0:\n    r = 0\n" % (n - 1) + "".join("elif x == %d:\n    r = %d\n" % (i, i) for i in range(1, n)) + "else:\n    r = -1\nprint(r)\n",
     "binop-chain": lambda n: "x = " + " + ".join(["1"] * n) + "\nprint(x)\n",
     "boolop-chain": lambda n: "x = " + " and ".join(["1"] * n) + "\nprint(x)\n",
@@ -70,6 +87,11 @@ FAMILIES = {
 }
 GRID_Q = [10, 30, 100, 300, 1000]
 GRID_T = [10, 30, 100, 300, 1000, 3000, 10000]
+# families whose source CPython refuses early (100 indentation levels, 20 statically nested blocks): sizes just below the limit
+NEAR_LIMIT = {
+    "nested-if": [50, 90, 98], "nested-def": [50, 90, 98], "nested-class": [50, 90, 98], "if-else-nested-in-else": [50, 90, 98],
+    "nested-for": [15, 19, 20], "nested-while": [15, 19, 20], "nested-loop-break": [15, 19], "return-in-nested-loops": [15, 19], "nested-brackets": [150, 190],
+}
 
 _CHILD = r"""
 import sys, json, io, contextlib, signal, ast
@@ -197,7 +219,7 @@ def run_shard(shard):
 def main(tier, seed, collect=None):
     t0 = time.time()
     grid = GRID_Q if tier == "quick" else GRID_T
-    sh = [(fam, grid, core.ALL_CFG) for fam in FAMILIES]
+    sh = [(fam, sorted(set(grid + NEAR_LIMIT.get(fam, []))), core.ALL_CFG) for fam in FAMILIES]
     total = core.run_shards(run_shard, sh, seed=seed, pid=PID)
     c = total.c
     cov = {
